@@ -1050,4 +1050,50 @@ theorem run_error {P : Script} {req : Request} {store : Store} {env : VEnv} {er 
     run P req store = .error er := by
   simp only [run, hp, hc, he]
 
+/-! ### the asset of what a source provides -/
+
+mutual
+/-- the asset of the funding a source provides is the asset of one of its account occurrences: the asset the
+send names for a bare / unbounded account, but the OVERDRAFT's asset for `allowing overdraft up to [B n]` -/
+theorem evalSource_asset (env : VEnv) (asset : Asset) : (s : Source) → (b b' : Bal) → (f : Fund) → (fb : Option Acct) →
+    evalSource env asset s b = .ok (f, fb, b') → ∃ o ∈ sourceOcc env asset s, o.asset = f.asset
+  | .acct e od, b, b', f, fb, h => by
+    obtain ⟨a, oa, o, unb, p, ha, hv, _, rfl, _⟩ := evalSource_acct_inv h
+    exact ⟨⟨a, oa, if isWorldLit e || unb then none else some o⟩, by simp [sourceOcc, ha, hv], rfl⟩
+  | .maxed cap s, b, b', f, fb, h => by
+    obtain ⟨f0, fb0, b1, ma, mn, hs, _, _, ha, _, hc⟩ := evalSource_maxed_inv h
+    obtain ⟨o, ho, hoa⟩ := evalSource_asset env asset s b b1 f0 fb0 hs
+    refine ⟨o, by simpa [sourceOcc] using ho, ?_⟩
+    rcases hc with ⟨_, rfl, _⟩ | ⟨w, p, _, _, hasm⟩
+    · exact hoa
+    · rw [hoa, (assemble_pair hasm).1, ha]
+  | .inorder ss, b, b', f, fb, h => by
+    obtain ⟨fs, hs, hasm⟩ := evalSource_inorder_inv h
+    obtain ⟨⟨l, hl, hla⟩, _, _⟩ := assemble_ok hasm
+    obtain ⟨o, ho, hoa⟩ := evalSources_asset env asset ss b b' fs fb hs l (List.mem_of_getLast? hl)
+    exact ⟨o, by simpa [sourceOcc] using ho, by rw [hoa, hla]⟩
+theorem evalSources_asset (env : VEnv) (asset : Asset) : (ss : SourceList) → (b b' : Bal) → (fs : List Fund) →
+    (fb : Option Acct) → evalSources env asset ss b = .ok (fs, fb, b') →
+    ∀ f ∈ fs, ∃ o ∈ sourcesOcc env asset ss, o.asset = f.asset
+  | .nil, b, b', fs, fb, h => by
+    obtain ⟨rfl, _, _⟩ := evalSources_nil_inv h
+    intro f hf; simp at hf
+  | .cons s rest, b, b', fs, fb, h => by
+    obtain ⟨f, fb1, b1, fs', fb2, hs, hr, rfl, _⟩ := evalSources_cons_inv h
+    intro g hg
+    rcases List.mem_cons.mp hg with rfl | hg
+    · obtain ⟨o, ho, hoa⟩ := evalSource_asset env asset s b b1 g fb1 hs
+      exact ⟨o, by simp only [sourcesOcc, List.mem_append]; exact Or.inl ho, hoa⟩
+    · obtain ⟨o, ho, hoa⟩ := evalSources_asset env asset rest b1 b' fs' fb2 hr g hg
+      exact ⟨o, by simp only [sourcesOcc, List.mem_append]; exact Or.inr ho, hoa⟩
+end
+
+/-- every occurrence of a source list without `allowing overdraft up to` clauses in another asset is in the
+asset of the send -/
+theorem evalSource_asset_eq {env : VEnv} {asset : Asset} {s : Source} {b b' : Bal} {f : Fund} {fb : Option Acct}
+    (h : evalSource env asset s b = .ok (f, fb, b')) (hocc : ∀ o ∈ sourceOcc env asset s, o.asset = asset) :
+    f.asset = asset := by
+  obtain ⟨o, ho, hoa⟩ := evalSource_asset env asset s b b' f fb h
+  rw [← hoa]; exact hocc o ho
+
 end Num
